@@ -1,11 +1,14 @@
 // Package c07: run numbers are unique and strictly increasing.
 //
-// Input  : (n (raft entry) sched)  |  (n (raft entry) sched (svc k))
+// Input  : (n (raft entry) sched)  |  (n (raft entry) sched (svc k))  |  (n (raft entry) sched (rpc k))
 //
 //	n      number of callers (ids 0..n-1), each makes ONE call of the real code
 //	(svc k) route: caller c calls NewRunNumber on local.Service number c mod k — k = 1 is ONE
 //	       apricot instance serving every caller, so calls overlap inside one Service object
 //	       (absent: a Service / ConsulSource of its own per slot c mod 4, see exec.go)
+//	(rpc k) route: caller c calls NewRunNumber on the remote apricot:// client number c mod k — the
+//	       REAL gRPC hop (remote.RemoteService → loopback TCP → RpcServer.NewRunNumber → local.Service
+//	       c mod k → Consul simulator), the path the core takes in production; see remote.go
 //	entry  - | (raw idx)                         -- the Consul key before the schedule
 //	sched  ((r c) | (w c) | (e c) | (f raw) | (d) | (x c))*
 //	         r c  Consul answers c's consistent GET (c is launched here)
@@ -195,6 +198,7 @@ func mkInput(n int, store *sx.Node, sched []*sx.Node) string {
 }
 
 func routeNode(k int) *sx.Node { return sx.L(sx.A("svc"), sx.I(k)) }
+func rpcNode(k int) *sx.Node   { return sx.L(sx.A("rpc"), sx.I(k)) }
 
 // mkInputR: route == nil gives the three-element form.
 func mkInputR(n int, store *sx.Node, sched []*sx.Node, route *sx.Node) string {
@@ -208,7 +212,15 @@ func mkInputR(n int, store *sx.Node, sched []*sx.Node, route *sx.Node) string {
 // (class exercised: calls that OVERLAP INSIDE one Service object — whatever NewRunNumber does
 // around the protocol call — coalescing, caching, handing one caller's answer to another —
 // happens between such calls and nowhere else).
-func routed(cs []fw.Case, k int) []fw.Case {
+func routed(cs []fw.Case, k int) []fw.Case { return routedVia(cs, "svc", k) }
+
+// routedRPC re-issues cases with every caller going through the gRPC hop: k remote clients, each in
+// front of an apricot server and its local.Service (class exercised: calls whose answer CROSSES THE
+// RPC BOUNDARY — whatever the handler and the client do with the backend's (value, error) pair:
+// forwarding, dropping or rewriting the error, answering from the candidate value, retrying).
+func routedRPC(cs []fw.Case, k int) []fw.Case { return routedVia(cs, "rpc", k) }
+
+func routedVia(cs []fw.Case, kind string, k int) []fw.Case {
 	out := make([]fw.Case, 0, len(cs))
 	for _, c := range cs {
 		in, err := sx.Parse(c.Input)
@@ -217,10 +229,10 @@ func routed(cs []fw.Case, k int) []fw.Case {
 		}
 		tags := make([]string, 0, len(c.Tags)+1)
 		for _, t := range c.Tags {
-			tags = append(tags, fmt.Sprintf("svc%d:", k)+t)
+			tags = append(tags, fmt.Sprintf("%s%d:", kind, k)+t)
 		}
-		tags = append(tags, fmt.Sprintf("route=svc%d", k))
-		out = append(out, fw.Case{Input: mkInputR(in.At(0).Int(), in.At(1), in.At(2).List, routeNode(k)), Tags: tags})
+		tags = append(tags, fmt.Sprintf("route=%s%d", kind, k))
+		out = append(out, fw.Case{Input: mkInputR(in.At(0).Int(), in.At(1), in.At(2).List, sx.L(sx.A(kind), sx.I(k))), Tags: tags})
 	}
 	return out
 }
@@ -431,12 +443,17 @@ func genRandom(r *rng.R, maxCallers, maxLen int) fw.Case {
 	if faults {
 		tags = append(tags, "crash-or-http-fault")
 	}
-	// a third of the schedules run with the callers sharing 1..3 Service instances
+	// a third of the schedules run with the callers sharing 1..3 Service instances, a sixth goes
+	// through the gRPC hop (1..3 remote clients, each in front of its own apricot server)
 	var route *sx.Node
 	if r.P(1, 3) {
 		k := rng.Pick(r, []int{1, 1, 1, 2, 2, 3})
 		route = routeNode(k)
 		tags = append(tags, fmt.Sprintf("route=svc%d", k))
+	} else if r.P(1, 4) {
+		k := rng.Pick(r, []int{1, 1, 1, 2, 2, 3})
+		route = rpcNode(k)
+		tags = append(tags, fmt.Sprintf("route=rpc%d", k))
 	} else {
 		tags = append(tags, "route=slots")
 	}
@@ -463,8 +480,17 @@ func generate(tier string, r *rng.R) []fw.Case {
 	cs = append(cs, routed(exhaustive(4, 0, exhStores[1:], "exh:n=4"), 2)...)
 	cs = append(cs, routed(longPrograms(2, 3, exhStores[1:], "exh:n=2,r+3w"), 1)...)
 	cs = append(cs, routed(exhaustive(2, 0, wrapStores, "exh:n=2,wrap-region"), 1)...)
+	// the same through the gRPC hop: ONE core talking to ONE remote apricot (two for the last set)
+	cs = append(cs, routedRPC(exhaustive(2, 1, exhStores, "exh:n=2,+1ev"), 1)...)
+	cs = append(cs, routedRPC(exhaustive(3, 0, exhStores, "exh:n=3"), 1)...)
+	cs = append(cs, routedRPC(exhaustive(1, 2, exhStores[1:], "exh:n=1,+2ev"), 1)...)
+	cs = append(cs, routedRPC(exhaustive(2, 0, wrapStores, "exh:n=2,wrap-region"), 1)...)
+	cs = append(cs, routedRPC(exhaustive(3, 0, exhStores[1:], "exh:n=3"), 2)...)
 	nRandom, maxCallers, maxLen := 6000, 8, 30
 	if tier == "thorough" {
+		cs = append(cs, routedRPC(exhaustive(2, 2, exhStores[1:], "exh:n=2,+2ev"), 1)...)
+		cs = append(cs, routedRPC(exhaustive(3, 1, exhStores[1:], "exh:n=3,+1ev"), 1)...)
+		cs = append(cs, routedRPC(exhaustive(4, 0, exhStores[1:], "exh:n=4"), 2)...)
 		cs = append(cs, routed(exhaustive(2, 2, exhStores, "exh:n=2,+2ev"), 1)...)
 		cs = append(cs, routed(exhaustive(3, 1, exhStores, "exh:n=3,+1ev"), 1)...)
 		cs = append(cs, routed(exhaustive(4, 0, exhStores, "exh:n=4"), 1)...)
@@ -490,6 +516,8 @@ func generate(tier string, r *rng.R) []fw.Case {
 // schedules, then random ones.
 func search(r *rng.R) []fw.Case {
 	var cs []fw.Case
+	cs = append(cs, routedRPC(exhaustive(2, 0, exhStores, "search:n=2"), 1)...)
+	cs = append(cs, routedRPC(exhaustive(1, 1, exhStores, "search:n=1,+1ev"), 1)...)
 	cs = append(cs, routed(exhaustive(2, 0, exhStores, "search:n=2"), 1)...)
 	cs = append(cs, routed(exhaustive(3, 0, exhStores[1:], "search:n=3"), 1)...)
 	cs = append(cs, routed(longPrograms(2, 3, exhStores, "search:n=2,r+3w"), 1)...)
@@ -572,7 +600,7 @@ func shrinkCands(input string) []string {
 	}
 	if route != nil {
 		if k := route.At(1).Int(); k > 1 {
-			out = append(out, mkInputR(n, in.At(1), steps, routeNode(k-1)))
+			out = append(out, mkInputR(n, in.At(1), steps, sx.L(sx.A(route.At(0).Str()), sx.I(k-1))))
 		}
 		out = append(out, mkInput(n, in.At(1), steps)) // without the route (shorter text)
 	}
@@ -596,7 +624,11 @@ func init() {
 			"odd: ConsulSource directly); with the 4th input element (svc k) caller c calls NewRunNumber on Service c mod k, so calls OVERLAP INSIDE one " +
 			"Service object (k=1: one apricot instance serves everybody, as in production): exhaustive (2,<=1) (3,0) from both stores, (2,0) in the wrap " +
 			"region, n=2 with 3 `w` steps on one instance, (4,0) on two instances (thorough: (2,2) (3,1) (4,0) on one), a third of the random schedules " +
-			"on 1..3 instances, 7 corpus lines. A caller that shows no event within the ceiling is set aside; if it later RETURNS without any request " +
+			"on 1..3 instances, 7 corpus lines. With (rpc k) caller c goes through the REAL gRPC hop — remote.RemoteService (apricot:// client) number c mod k → " +
+			"loopback TCP → RpcServer.NewRunNumber of remote.NewServer → local.Service c mod k → the same simulator (production layout: the core holds no local.Service): " +
+			"exhaustive (2,<=1) (3,0) from both stores, (1,<=2) from \"41\", (2,0) in the wrap region on one chain, (3,0) on two (thorough: (2,2) (3,1) on one, (4,0) on two), " +
+			"a sixth of the random schedules on 1..3 chains, corpus lines; the observation is unchanged (number or error class per caller), the model hands a call that " +
+			"ends in an error NO number through the hop. A caller that shows no event within the ceiling is set aside; if it later RETURNS without any request " +
 			"having reached the simulator it is recorded as answered with no request of its own (Spec clause ownWrite rejects a number obtained so); " +
 			"every ambiguity or ceiling is inconclusive. non-trivial = >=2 calls launched, >=1 number handed out and the calls " +
 			"were disturbed (refused CAS, error, dead/pending caller or foreign write/delete); distinct by input text." + envRule,
@@ -606,6 +638,7 @@ func init() {
 		Setup:    setup,
 		Teardown: teardown,
 		TrustedBase: []string{
+			"harness/props/c07 gRPC chains (remote.go): the real remote.NewServer on a loopback listener in front of the rig's local.Service, the real remote.NewService as caller; error classes of answers that crossed the hop are told from the status description (code Unknown = the handler's error text); every other status code from the transport is inconclusive",
 			"harness/props/c07 Consul KV simulator (consul.go): index per write, cas semantics of kvsSetCASTxn, linearizable consistent GET",
 			"harness/props/c07 controller (exec.go): one caller runs at a time, so requests are attributed without tagging; a caller without any event within the ceiling is set aside and only its later RETURN (an event) is used — no request at all may reach the simulator while such a caller is out, else the case is inconclusive",
 			"github.com/hashicorp/consul/api client (real, unmodified) and net/http on loopback",
@@ -614,7 +647,7 @@ func init() {
 		Assumptions: []string{
 			"Consul itself: a consistent-mode GET is linearizable, ModifyIndex grows with every write, PUT ?cas= is atomic (the simulator and the Lean model implement exactly this)",
 			"ForeignMonotone: nobody else lowers or deletes the counter (stated as a hypothesis of the theorems; cases violating it are executed and compared with the model, Spec is vacuous for them)",
-			"remote apricot (gRPC proxy in front of local.Service) adds no retry: one NewRunNumber RPC = one GetNextUInt32 call",
+			"grpc-go between the remote client and the apricot server: a handler's plain Go error reaches the client as a status of code Unknown carrying its text and no response message; no retry policy is configured (one RPC that reached the handler = one handler run). That the handler and the client themselves make ONE call each and hand the error on is extracted by go/ast (C07_remote_hop_is_code) and replayed (route (rpc k))",
 			"the start attempts of ONE environment are sequential (TryTransition holds the environment's transition mutex — C01), so each is a complete call on the durable counter; other environments' calls in between are foreign-monotone writes for it",
 		},
 	})
